@@ -180,6 +180,7 @@ func (f *fNatsTransport) Request(ctx FContext, data []byte) (thrift.TTransport, 
 		return nil, thrift.NewTTransportException(TRANSPORT_EXCEPTION_UNKNOWN, err.Error())
 	}
 	defer f.registry.Unregister(ctx)
+	verifYieldCtx("request.registered", ctx)
 
 	if err := f.checkMessageSize(data); err != nil {
 		return nil, err
@@ -195,11 +196,13 @@ func (f *fNatsTransport) Request(ctx FContext, data []byte) (thrift.TTransport, 
 
 	select {
 	case result := <-resultC:
+		verifYieldCtx("request.got", ctx)
 		if bytes.Equal(result, serviceNotAvailable) {
 			return nil, thrift.NewTTransportException(TRANSPORT_EXCEPTION_SERVICE_NOT_AVAILABLE, "frugal: service not available")
 		}
 		return &thrift.TMemoryBuffer{Buffer: bytes.NewBuffer(result)}, nil
 	case <-time.After(ctx.Timeout()):
+		verifYieldCtx("request.timeout", ctx)
 		return nil, thrift.NewTTransportException(TRANSPORT_EXCEPTION_TIMED_OUT, "frugal: nats request timed out")
 	}
 }
